@@ -3,6 +3,7 @@
 package utreexo
 
 import (
+	"bytes"
 	"fmt"
 	"math/rand"
 	"testing"
@@ -126,6 +127,37 @@ func deadHashes(w *racWorld) []Hash {
 	return d
 }
 
+// restoredWorld: every forest of w written out and restored from the bytes (same spec, same verifier state).
+func restoredWorld(res *racResult, w *racWorld, h racHistory) *racWorld {
+	w2 := &racWorld{spec: w.spec, stump: w.stump, cfgs: w.cfgs}
+	var buf bytes.Buffer
+	if _, err := w.pol.WriteTo(&buf); err != nil {
+		return nil
+	}
+	_, p2, err := RestorePollardFrom(bytes.NewReader(buf.Bytes()))
+	res.eval("RestorePollardFrom.rac.restores")
+	if err != nil || p2 == nil {
+		res.fail("RestorePollardFrom.rac.restores", map[string]interface{}{"history": h.String()}, fmt.Sprint(err), "restored")
+		return nil
+	}
+	w2.pol = p2
+	for i, m := range w.maps {
+		var mb bytes.Buffer
+		if _, err := m.Write(&mb); err != nil {
+			return nil
+		}
+		m2 := NewMapPollard(w.cfgs[i].Full)
+		_, err := m2.Read(bytes.NewReader(mb.Bytes()))
+		res.eval("MapPollard.Read.rac.restores")
+		if err != nil {
+			res.fail("MapPollard.Read.rac.restores", map[string]interface{}{"history": h.String(), "config": w.cfgs[i].String()}, fmt.Sprint(err), "restored")
+			return nil
+		}
+		w2.maps = append(w2.maps, &m2)
+	}
+	return w2
+}
+
 func TestRAC_C10(t *testing.T) {
 	res := newRacResult("C10")
 	cfgs := racMapCfgs(res.thorough())
@@ -143,6 +175,12 @@ func TestRAC_C10(t *testing.T) {
 		n++
 		res.seen(fmt.Sprintf("n=%d live=%v", w.spec.n, w.spec.liveHashes()))
 		checkLookups(res, w, h, deadHashes(w), "after-modify")
+		// after restore from serialization (every second state in the quick tier)
+		if n%2 == 0 || res.thorough() {
+			if w2 := restoredWorld(res, w, h); w2 != nil {
+				checkLookups(res, w2, h, deadHashes(w), "after-restore-from-bytes")
+			}
+		}
 		// after Verify(remember=true) of a live subset (the look-ups must not change)
 		live := w.spec.liveHashes()
 		if len(live) > 0 && n%3 == 0 {
@@ -173,7 +211,7 @@ func TestRAC_C10(t *testing.T) {
 			checkLookups(res, w, h, deadHashes(w), "after-modify")
 		}
 	}
-	res.Rule = fmt.Sprintf("every reachable state of histories with <= %d leaves / <= %d blocks (+%d seeded random histories), also after Verify(remember=true) of a seeded live subset; hashes from {every live leaf, every dead leaf, every internal node and root hash, one fresh}; every position in [0, 2^(rows+1)+2]; Pollard and MapPollard %v; oracle specForest.Placed / LeafPositions. distinct = distinct abstract states", maxLeaves, maxBlocks, nr, cfgs)
+	res.Rule = fmt.Sprintf("every reachable state of histories with <= %d leaves / <= %d blocks (+%d seeded random histories), also after restore from serialization (every second state) and after Verify(remember=true) of a seeded live subset; hashes from {every live leaf, every dead leaf, every internal node and root hash, one fresh}; every position in [0, 2^(rows+1)+2]; Pollard and MapPollard %v; oracle specForest.Placed / LeafPositions. distinct = distinct abstract states", maxLeaves, maxBlocks, nr, cfgs)
 	res.Scope = fmt.Sprintf("states=%d", n)
 	res.write(t)
 }
